@@ -309,6 +309,28 @@ func aggEngine(r *core.Run) {
 		})
 		r.Set("large_universe_size", len(ul))
 	}
+	// the empty snapshot: no bucket, and the aggregation still refers back to the snapshot it was made from
+	if r.Prop == "C04" {
+		for _, gs := range [][]*stack.Goroutine{nil, {}} {
+			es := &stack.Snapshot{Goroutines: gs, LocalGOROOT: "/local/goroot", RemoteGOROOT: "/goroot"}
+			for li, lvl := range allLevels {
+				var a *stack.Aggregated
+				var panicked any
+				func() {
+					defer func() { panicked = recover() }()
+					a = es.Aggregate(lvl)
+				}()
+				r.Eval(1)
+				if panicked != nil {
+					r.Violation("panic/empty-snapshot", fmt.Sprintf("Aggregate(%s) of a snapshot without goroutines panicked: %v", levelNames[li], panicked), "agg", &aggCase{})
+				} else if a == nil {
+					r.Violation("nil-aggregation/empty-snapshot", "Aggregate of a snapshot without goroutines returned nil", "agg", &aggCase{})
+				} else if k, w := mon.CheckPartition(es, a); k != "" {
+					r.Violation(k+"/empty-snapshot", fmt.Sprintf("%s on a snapshot without goroutines: %s", levelNames[li], w), "agg", &aggCase{})
+				}
+			}
+		}
+	}
 	// (a) all multisets of size <= 3 in all orders
 	halfTriples := false // the star-shaped small universe made this unnecessary
 	core.Parallel(n, workers(), func(i int) {
